@@ -10,6 +10,8 @@
 import SA.Proofs.DnsServer
 import SA.Proofs.DnsOpen
 import SA.Proofs.DnsStray
+import SA.Proofs.DnsBatch
+import SA.Gen.C13Locks
 
 namespace SA.Props.C13
 open SA.Go SA.Go.Res SA.DnsServer
@@ -133,6 +135,72 @@ theorem C13_witness_shared_address :
     (newUserReusing (newUserReusing Srv.init 7).1 7).2 = some 0 ∧ (newUserReusing Srv.init 7).2 = some 0 ∧
     (newUserReusing (newUserReusing Srv.init 7).1 7).1.heap.length = 1 ∧
     (newUser (newUser Srv.init 7).1 7).2 = some 1 ∧ (newUser (newUser Srv.init 7).1 7).1.heap.length = 2 := by
+  decide +kernel
+
+/-! ## concurrent sessions: operations on the session tables running at the same moment
+
+The real handlers run on one goroutine per datagram, `Close()` on the application's goroutines, the pruning task on
+its own.  The sequential model speaks about that through two facts: (1) the operations that WRITE the session tables
+are atomic steps — each of them does all its table accesses inside one critical section of `usersLock`
+(`C13_table_ops_atomic`, regenerated from the source) —, so a concurrent batch is the sequential run of its steps in
+some order; (2) for a batch of opens the order does not matter (`C13_batch_opens_perm`) and the identifiers answered
+are pairwise distinct, were free, and are the lowest free slots (`C13_batch_opens_ids`).  The `dnssess` component
+delivers such batches to the real listener from one goroutine per op and compares with the listed order. -/
+
+/-- **the table operations are atomic steps** (regenerated lock structure, `go/extract/x_c13_locks.go`): on every
+    control-flow path of `newUser`, of `closeConnection` and of the pruning task, every access to `connections` /
+    `oldConnections` happens while `usersLock` is held, all accesses of the path lie in ONE critical section (no `Unlock`
+    between the first and the last of them — in `newUser`: between the nil test of the scan and the store into
+    `s.connections[i]`), and the lock is released at the end (`defer` or explicit).  The paths that matter exist: `newUser`
+    has a path that reads the live table and then stores into it, `closeConnection` one that stores into both tables, the
+    pruning task paths that store.  Fails to compile when the source changes the lock structure. -/
+theorem C13_table_ops_atomic :
+    (SA.Gen.lockPaths_newUser.all pathAtomic && SA.Gen.lockPaths_newUser.any findsThenStores &&
+     SA.Gen.lockPaths_closeConnection.all pathAtomic &&
+     SA.Gen.lockPaths_closeConnection.any (fun p => p.contains 4 && p.contains 6) &&
+     SA.Gen.lockPaths_expiry.all pathAtomic && SA.Gen.lockPaths_expiry.any (fun p => p.contains 4) &&
+     SA.Gen.lockPaths_expiry.any (fun p => p.contains 6)) = true := by decide
+
+/-- **order-independence of a batch of opens**: for every state and every two lists of clients that are permutations
+    of each other, serving the opens in either order answers the same identifiers (position by position: the k-th open
+    served gets the k-th lowest free slot, whoever it is) and leaves the same server state up to the owner field of the
+    session objects — the orders differ only in WHICH client is told which identifier. -/
+theorem C13_batch_opens_perm (σ : Srv) (as bs : List Nat) (hp : as.Perm bs) :
+    (opens σ as).2 = (opens σ bs).2 ∧ (opens σ as).1.anon = (opens σ bs).1.anon ∧
+    (opens σ as).1.live = (opens σ bs).1.live ∧ (opens σ as).1.retired = (opens σ bs).1.retired := by
+  obtain ⟨h1, h2⟩ := opens_perm σ hp
+  obtain ⟨h3, h4, _, _⟩ := anon_fields h1
+  exact ⟨h2, h1, h3, h4⟩
+
+/-- **the identifiers answered in one batch**: pairwise distinct; each was free before the batch; after the batch no
+    slot below an answered identifier is free (the lowest free slots); and the k-th client, told identifier i, owns
+    the session object in live slot i — an object with identifier i that did not exist before the batch. -/
+theorem C13_batch_opens_ids (σ : Srv) (as : List Nat) :
+    ((opens σ as).2.filterMap id).Nodup ∧
+    (∀ i, some i ∈ (opens σ as).2 → σ.live[i]? = some none) ∧
+    (∀ i, some i ∈ (opens σ as).2 → ∀ j, j < i → ∃ s, (opens σ as).1.live[j]? = some (some s)) ∧
+    (∀ (k i a : Nat), (opens σ as).2[k]? = some (some i) → as[k]? = some a →
+      ∃ sid, σ.heap.length ≤ sid ∧ (opens σ as).1.live[i]? = some (some sid) ∧
+        ((opens σ as).1.sess sid).owner = a ∧ ((opens σ as).1.sess sid).uid = i) :=
+  ⟨opens_ids_nodup as σ, opens_ids_free as σ, opens_lowest as σ, opens_owner as σ⟩
+
+/-- sessions that exist before a batch of opens are not touched by it: same object, same slot -/
+theorem C13_batch_opens_frame (σ : Srv) (as : List Nat) (j sid : Nat) (h : σ.live[j]? = some (some sid)) (hs : sid < σ.heap.length) :
+    (opens σ as).1.live[j]? = some (some sid) ∧ (opens σ as).1.sess sid = σ.sess sid :=
+  ⟨opens_keeps_occupied as σ j sid h, opens_sess_old as σ sid hs⟩
+
+/-- kernel-checked: **with a non-atomic find / store two opens are told the same identifier**.  The seeded lock
+    structure (`Lock; scan; Unlock; store`) is rejected by `pathAtomic`; and in the model with `newUser` split into its
+    two halves (`newUser_eq_find_store`), the schedule "client 7 scans, client 8 scans, 7 stores, 8 stores" tells both
+    identifier 0, leaves ONE live session (8's), and 7's session object in no slot at all — while the atomic steps give
+    0 and 1. -/
+theorem C13_witness_nonatomic_open :
+    pathAtomic [0, 3, 2, 4] = false ∧ pathAtomic [0, 1, 3, 4] = true ∧
+    findSlot Srv.init = some 0 ∧ findSlot Srv.init = some 0 ∧
+    (storeSlot (storeSlot Srv.init 0 7) 0 8).live[0]? = some (some 1) ∧
+    ((storeSlot (storeSlot Srv.init 0 7) 0 8).live.filter Option.isSome).length = 1 ∧
+    ((storeSlot (storeSlot Srv.init 0 7) 0 8).sess 0).owner = 7 ∧
+    (opens Srv.init [7, 8]).2 = [some 0, some 1] := by
   decide +kernel
 
 /-! ## spoofed and stale identifiers -/
@@ -496,6 +564,14 @@ example : msgUid sampleDom { addr := 7, qtype := 10, name := sampleName1 } = som
     reissuedState.live[1]? = some (some 2) ∧ (reissuedState.sess 2).owner = 7 ∧
     reissuedState.retired[1]? = some (some 1) ∧ (reissuedState.sess 1).owner = 7 := by decide
 
+/-- a batch on a table with a hole: identifiers 1 and 3 are free below the live 2 and 4; three clients get 1, 3, 5 in
+    every order -/
+def holedState : Srv := (run sampleCodec sampleDom (opens Srv.init [1, 1, 1, 1, 1]).1 [.close 1, .close 3])
+example : (opens holedState [7, 8, 9]).2 = [some 1, some 3, some 5] ∧ (opens holedState [9, 7, 8]).2 = [some 1, some 3, some 5] ∧
+    (opens holedState [7, 8, 9]).1.anon = (opens holedState [9, 7, 8]).1.anon ∧
+    ((opens holedState [7, 8, 9]).1.sess 6).owner = 8 ∧ ((opens holedState [9, 7, 8]).1.sess 6).owner = 7 := by
+  decide +kernel
+
 example : safeLoops 300 [(1, 1800, [(1, false)])] = true ∧ safeLoops 300 [(1, 1800, [(0, false)])] = false := by decide
 
 end SA.Props.C13
@@ -506,6 +582,11 @@ end SA.Props.C13
 #print axioms SA.Props.C13.C13_open_returns_free_id
 #print axioms SA.Props.C13.C13_two_opens_two_sessions
 #print axioms SA.Props.C13.C13_witness_shared_address
+#print axioms SA.Props.C13.C13_table_ops_atomic
+#print axioms SA.Props.C13.C13_batch_opens_perm
+#print axioms SA.Props.C13.C13_batch_opens_ids
+#print axioms SA.Props.C13.C13_batch_opens_frame
+#print axioms SA.Props.C13.C13_witness_nonatomic_open
 #print axioms SA.Props.C13.C13_spoof_rejected
 #print axioms SA.Props.C13.C13_closed_id_inert
 #print axioms SA.Props.C13.C13_validate_live_first
